@@ -2,6 +2,7 @@ import Uhppote.Model.Events
 import Uhppote.Gen.Messages
 import Uhppote.Props.C04
 import Uhppote.Props.C03
+import Uhppote.Props.C02
 /-! # C10 — the event listener delivers every valid event once, in order, and nothing else (partial)
 
 `Model.Events.listenTrace` is the handler of `uhppote.listen` followed by the status mapping of
@@ -78,5 +79,17 @@ theorem C10_receive_buffer : (Gen.Driver.bufSizes.lookup "Listen").map (fun n =>
 
 theorem C10_overlong_seen (n : Nat) (h : 64 < n) (d : Bytes) (hd : d.length ≠ 64) : (received n d).length ≠ 64 :=
   fun hc => hd ((C03.C03_length_visible n h 0 d).1.1 hc)
+
+/-- **every field of a delivered status is the protocol decoding of the datagram**: an event callback carries the status
+    mapping (the C02 mapping: `C02_result_positional`) of a reply struct that lies in the protocol's
+    decoding relation for that datagram (`C18_unmarshal_sound`, shipped event layout) -/
+theorem C10_event_is_protocol_decoding (L : Layout) (h : Gen.Messages.all.lookup "GetStatusResponse" = some L)
+    (d : Bytes) (s : List Val)
+    (hev : classify Gen.codecFacts C12.genTables C18.wireBounds L d = .event s) :
+    ∃ r, statusResult r = .vals s ∧ Spec.Codec.acceptsUnmarshal L.leaves d (.ok r) = true := by
+  obtain ⟨_, _, r, hr, hs⟩ := C10_event_only_if_well_formed _ _ _ L d s hev
+  have hd := C02.C02_decode_relation "GetStatusResponse" L h d
+  rw [hr] at hd
+  exact ⟨r, hs, hd⟩
 
 end Uhppote.Props.C10
